@@ -35,7 +35,8 @@ type CacheScen struct {
 	CBReenter bool
 	Payload   bool // values are *payload (race check)
 	Def       time.Duration // default expiration given at construction (0 = none)
-	// Warm: the cache has already run a cleanup pass that evicted two entries (start from a non-initial state)
+	// Warm: the cache has already grown, shrunk back and run a cleanup pass that evicted two entries
+	// (start from a non-initial state)
 	Warm    bool
 	Classes int
 	CheckFn   bool
@@ -59,7 +60,7 @@ func (cs *CacheScen) name() string {
 		sb.WriteString("/reentrant-callback")
 	}
 	if cs.Warm {
-		sb.WriteString("/after-an-earlier-cleanup-pass")
+		sb.WriteString("/after-grow-shrink-and-a-cleanup-pass")
 	}
 	for t, ops := range cs.Threads {
 		fmt.Fprintf(&sb, " T%d:", t)
@@ -122,7 +123,19 @@ func (cs *CacheScen) setup(l *tledger) (CacheLike, CState) {
 	if cs.Callback {
 		st.CB = 1
 	}
+	baseG := int64(0)
 	if cs.Warm {
+		for j := 0; j < 200; j++ {
+			c.SetForever(fillSpread+600+j, 1)
+		}
+		for j := 0; j < 200; j++ {
+			c.Delete(fillSpread + 600 + j)
+		}
+		if s := c.Stats(); s.TotalGrowths < 1 || s.TotalShrinks < 1 || s.RootBuckets != 32 {
+			panic(fmt.Sprintf("cache prologue: grow/shrink cycle did not return to the minimum table: %+v", s))
+		}
+		baseG = c.Stats().TotalGrowths
+		l.take(sched.MaxThreads)
 		c.Set(fillSpread+500, 1, 1)
 		c.Set(fillSpread+501, 1, 1)
 		vtime.VAdvance(3)
@@ -168,7 +181,7 @@ func (cs *CacheScen) setup(l *tledger) (CacheLike, CState) {
 		for j := 0; c.Count() <= thr; j++ {
 			c.SetForever(fillSpread+j, 2000+j)
 		}
-		if c.Stats().TotalGrowths != 0 {
+		if c.Stats().TotalGrowths != baseG {
 			panic("cache prologue grew the table")
 		}
 	}
